@@ -48,6 +48,8 @@ def jobs(tier):
     js = [('pairs', xi, tier) for xi in range(len(intervals(7)))]
     js += [('multi', k) for k in range(len(intervals(6)))]
     js += [('position', pi) for pi in range(len(POSITIONS))]
+    js += [('depth3', k) for k in range(len(intervals(5)))]
+    js.append(('nested-context',))
     if tier == 'quick':
         iv4 = intervals(4)
         js += [('triples4', a, b) for a in range(len(iv4)) for b in range(len(iv4))]
@@ -201,6 +203,95 @@ def run_position(r, pos):
                     r.fail(case, 'pair-resolution-differs-from-rule:%s->%s' % (want[0], got[0]), kf=classify_pair(first, second, want, got),
                            expected=list(want), observed=list(got))
     r.sample(dict(kind='add_token position', position=pos), 1)
+
+
+def run_depth3(r, k):
+    """two candidates two levels below a top-level token (outer > middle > the pair): the pair rule applies to them exactly as at top
+    level, and the enclosing tokens - which conflict with nothing - stay"""
+    ivs = [(s_ + 2, e_ + 2) for s_, e_ in intervals(5)]          # inside the middle token's parse group 2..7
+    xi = ivs[k]
+    W = dict(name='W', iv=(0, 9), pg=(1, 8), prec=5, inner=True)
+    V = dict(name='V', iv=(1, 8), pg=(2, 7), prec=5, inner=True)
+    for xp in pgs(xi, full=False):
+        for yi in ivs:
+            for yp in pgs(yi, full=False):
+                for px, py in ((5, 5), (4, 6), (6, 4)):
+                    for ix in (True, False):
+                        for iy in (True, False):
+                            X = dict(name='X', iv=xi, pg=xp, prec=px, inner=ix)
+                            Y = dict(name='Y', iv=yi, pg=yp, prec=py, inner=iy)
+                            specs = [W, V, X, Y]
+                            names = [s_['name'] for s_ in specs]
+                            case = dict(tokens=[dict(name=s_['name'], interval=list(s_['iv']), parse_group=list(s_['pg']), precedence=s_['prec'], parse_inner=s_['inner']) for s_ in specs], depth3=True)
+                            r.states += 1
+                            r.transitions += 1
+                            try:
+                                inside, lifecycle_ok, order_ok = parse_with([mk(s_['name'], s_['prec'], s_['inner'], s_['iv'], s_['pg']) for s_ in specs])
+                            except Exception as e:
+                                r.fail(case, core.exc_sig(e), repr(e)[:200])
+                                continue
+                            r.validated += 1
+                            p = tiling_problem(list(inside), 0, len(TEXT), names)
+                            if p:
+                                r.fail(case, 'tiling:' + p, observed=repr(shape(list(inside), names)))
+                                continue
+                            sh = shape(list(inside), names)
+                            if len(sh) != 1 or sh[0][0] != 'W' or len(sh[0][1]) != 1 or sh[0][1][0][0] != 'V':
+                                r.fail(case, 'depth3:enclosing-token-missing', expected=['W', ['V']], observed=repr(sh))
+                                continue
+                            want = pair_model(X, Y)
+                            got = observe_pair(sh[0][1][0][1])
+                            r.outcome('depth3-' + got[0])
+                            if got != want:
+                                r.fail(case, 'depth3-pair-resolution-differs-from-rule:%s->%s' % (want[0], got[0]), kf=classify_pair(X, Y, want, got),
+                                       expected=list(want), observed=list(got))
+    r.sample(dict(kind='pair two levels below a top-level token', first=list(xi)), 1)
+
+
+def run_nested_context(r):
+    """the custom tokens of an inner renderer context are gone once that context is left, also while an outer context is open"""
+    from mistletoe import Document, span_token
+    from mistletoe.html_renderer import HtmlRenderer
+    for xi in intervals(3):
+        for yi in intervals(3):
+            X = mk('X', 5, False, xi, xi)
+            Y = mk('Y', 5, False, (yi[0] + 4, yi[1] + 4), (yi[0] + 4, yi[1] + 4))
+            core.fresh()
+            r.states += 1
+            r.transitions += 1
+
+            class RA(HtmlRenderer):
+                def __init__(self):
+                    super().__init__(X, process_html_tokens=False)
+
+                def render_x(self, t):
+                    return ''
+
+            class RB(HtmlRenderer):
+                def __init__(self):
+                    super().__init__(Y, process_html_tokens=False)
+
+                def render_y(self, t):
+                    return ''
+            case = dict(nested_context=True, outer=list(xi), inner=[yi[0] + 4, yi[1] + 4])
+            try:
+                with RA():
+                    with RB():
+                        both = [type(t).__name__ for t in Document(TEXT).children[0].children]
+                    after_inner = [type(t).__name__ for t in Document(TEXT).children[0].children]
+                after_outer = [type(t).__name__ for t in Document(TEXT).children[0].children]
+            except Exception as e:
+                r.fail(case, core.exc_sig(e), repr(e)[:200])
+                continue
+            r.validated += 1
+            if 'Y' not in both:
+                r.fail(case, 'inner-token-not-recognised-inside-its-context', observed=both)
+            if 'Y' in after_inner:
+                r.fail(case, 'custom-tokens-survive-inner-context-exit', observed=after_inner)
+            if after_outer != ['RawText']:
+                r.fail(case, 'custom-tokens-survive-context-exit', observed=after_outer)
+            r.outcome('nested-context')
+    r.sample(dict(kind='nested renderer contexts'), 1)
 
 
 def parse_with(classes):
@@ -374,6 +465,12 @@ def run_job(job):
     if kind == 'multi':
         run_multi(r, job[1])
         return r
+    if kind == 'depth3':
+        run_depth3(r, job[1])
+        return r
+    if kind == 'nested-context':
+        run_nested_context(r)
+        return r
     if kind == 'position':
         run_position(r, POSITIONS[job[1]])
         return r
@@ -419,6 +516,28 @@ def run_job(job):
 
 
 def replay(case):
+    if case.get('nested_context'):
+        r = core.Result()
+        run_nested_context(r)
+        for (kf, sig), (n, fl) in r.failures.items():
+            for f in fl:
+                if f['case'] == case:
+                    return f
+        for (kf, sig), (n, fl) in r.failures.items():
+            return fl[0]
+        return None
+    if case.get('depth3'):
+        r = core.Result()
+        xi = tuple(case['tokens'][2]['interval'])
+        run_depth3(r, [(s_ + 2, e_ + 2) for s_, e_ in intervals(5)].index(xi))
+        for (kf, sig), (n, fl) in r.failures.items():
+            for f in fl:
+                if f['case']['tokens'] == case['tokens']:
+                    return f
+        for (kf, sig), (n, fl) in r.failures.items():
+            if not kf:
+                return fl[0]
+        return None
     if case.get('multi') or 'position' in case:
         r = core.Result()
         if case.get('multi'):
